@@ -217,3 +217,245 @@ Qed.
 Lemma C17xb_model_ok_lemma : forall c ops fl, wf17x c -> xops_of (cx_ops c) = Some ops -> no_unguarded c ->
   ok_C17xn c (force_err_obs fl (run_C17xn c ops)) = true.
 Proof. intros c ops fl W X NU. apply ok_C17xn_force. exact (C17xn_model_ok_lemma c ops W X NU). Qed.
+
+(* ------------------------------------------------------------------ model geometry = spec geometry (round w7c) *)
+Definition erase (a : accx) : sacc :=
+  match a with AxS o l _ => SS o l | AxR o t _ => SR o t | AxA o t n _ => SA o t n end.
+
+Ltac code4 k H :=
+  let p := fresh "p" in
+  destruct (k_code k) as [|p] eqn:KC;
+  [|destruct p as [p|p|]; [destruct p as [p|p|]; [destruct p as [p|p|]; [destruct p as [p|p|]|destruct p as [p|p|]|]
+                                                 |destruct p as [p|p|]; [destruct p as [p|p|]|destruct p as [p|p|]|]|]
+                          |destruct p as [p|p|]; [destruct p as [p|p|]; [destruct p as [p|p|]|destruct p as [p|p|]|]
+                                                 |destruct p as [p|p|]; [destruct p as [p|p|]|destruct p as [p|p|]|]|]|]];
+  try discriminate H.
+
+Ltac leb_all :=
+  repeat match goal with
+         | |- context [?x <=? ?y] => destruct (N.leb_spec x y)
+         | |- context [?x <? ?y] => destruct (N.ltb_spec x y)
+         | |- context [?x =? ?y] => destruct (N.eqb_spec x y)
+         end.
+
+Lemma d_subslice_geo off len h o c :
+  match d_subslice off len h o c with
+  | Val (Some a') => a' = AxS (off + o) c h /\ o + c <= len
+  | Val None => True | _ => False end.
+Proof.
+  unfold d_subslice. destruct (end_offset len o c) as [e|] eqn:E; [|exact I].
+  apply end_offset_Some in E. split; [reflexivity|lia].
+Qed.
+
+Lemma d_subslice_full off len h : len < W64 -> d_subslice off len h 0 len = Val (Some (AxS (off + 0) len h)).
+Proof.
+  intros L. unfold d_subslice, end_offset, checked_add. rewrite N.add_0_l.
+  destruct (N.ltb_spec len W64); [|lia]. destruct (N.ltb_spec len len); [lia|]. reflexivity.
+Qed.
+
+Ltac fin :=
+  cbn [erase acc_hi bind passert]; rewrite ?N.eqb_refl; cbn [erase acc_hi bind passert]; leb_all; try lia; try exact I;
+  try (split; [try reflexivity; repeat f_equal; lia | cbn [acc_hi]; nia]); try reflexivity.
+
+Lemma step_agree m size a k s : step_of k = Some s -> acc_hi a <= size -> size <= ISZ_MAX ->
+  match d_step m a s with
+  | Val (Some a') => s_step (erase a) k = Some (erase a') /\ acc_hi a' <= size
+  | Val None => True
+  | Panic _ => s_step (erase a) k = None
+  | OutOfFuel => False
+  end.
+Proof.
+  intros S IB SZ. assert (WB : ISZ_MAX < W64) by (rewrite W64_val; reflexivity).
+  unfold step_of in S. code4 k S;
+    try (destruct (k_b k =? 0) eqn:BZ; [discriminate S|]); inversion S; subst s; clear S;
+    destruct a as [off len h|off t h|off t n h]; cbn [d_step erase acc_hi] in *; try exact I; unfold s_step; rewrite KC.
+  all: try (rewrite d_subslice_full by lia).
+  all: try (unfold d_arr_of; destruct (isz_mul _ _) as [nb|] eqn:IM; [apply isz_mul_Some in IM; destruct IM as [-> IM]|exact I]).
+  all: try match goal with
+       | |- context [d_subslice ?off ?len ?h ?o ?c] =>
+           pose proof (d_subslice_geo off len h o c) as G; destruct (d_subslice off len h o c) as [[x|]| |];
+           [destruct G as [-> G]| | destruct G | destruct G]
+       end.
+  all: cbn [d_ref_of bind passert]; rewrite ?N.eqb_refl; cbn [d_ref_of bind passert].
+  all: try (rewrite pmul_Val by nia).
+  all: fin.
+  cbn [passert bind]. rewrite pmul_Val by nia. cbn [bind erase acc_hi].
+  split; [f_equal; f_equal; lia|nia].
+Qed.
+
+Lemma steps_agree m size : forall ks l a, map_opt step_of ks = Some l -> acc_hi a <= size -> size <= ISZ_MAX ->
+  match d_steps m a l with
+  | Val (Some a') => s_steps (erase a) ks = Some (erase a') /\ acc_hi a' <= size
+  | Val None => True
+  | Panic _ => s_steps (erase a) ks = None
+  | OutOfFuel => False
+  end.
+Proof.
+  induction ks as [|k ks IH]; intros l a M IB SZ; cbn [map_opt] in M.
+  - inversion M; subst l. cbn [d_steps s_steps]. split; [reflexivity|exact IB].
+  - destruct (step_of k) as [s|] eqn:S; [|discriminate]. destruct (map_opt step_of ks) as [l'|] eqn:M'; [|discriminate].
+    inversion M; subst l. cbn [d_steps s_steps].
+    pose proof (step_agree m size a k s S IB SZ) as A.
+    destruct (d_step m a s) as [[a1|]| |]; try exact A.
+    + destruct A as [A1 A2]. rewrite A1. exact (IH l' a1 eq_refl A2 SZ).
+    + rewrite A. reflexivity.
+Qed.
+
+Lemma root_agree m g k r : root_of k = Some r -> xr_size g <= ISZ_MAX ->
+  match d_root m g r with
+  | Val (Some a) => s_root (xr_size g) k = Some (erase a) /\ acc_hi a <= xr_size g
+  | Val None => True
+  | Panic _ => s_root (xr_size g) k = None
+  | OutOfFuel => False
+  end.
+Proof.
+  intros S SZ. assert (WB : ISZ_MAX < W64) by (rewrite W64_val; reflexivity).
+  unfold root_of in S. code4 k S;
+    try (destruct (k_b k =? 0) eqn:BZ; [discriminate S|]); inversion S; subst r; clear S;
+    cbn [d_root]; unfold s_root; rewrite KC.
+  all: try (unfold d_arr_of; destruct (isz_mul _ _) as [nb|] eqn:IM; [apply isz_mul_Some in IM; destruct IM as [-> IM]|exact I]).
+  all: unfold r_get_slice.
+  all: try match goal with
+       | |- context [end_offset ?len ?o ?c] =>
+           destruct (end_offset len o c) as [e|] eqn:E; [apply end_offset_Some in E; destruct E as [_ E]|]
+       end.
+  all: cbn [d_ref_of bind passert]; rewrite ?N.eqb_refl; cbn [d_ref_of bind passert].
+  all: fin.
+Qed.
+
+Lemma final_agree m size a k f : final_of k = Some f -> acc_hi a <= size -> size <= ISZ_MAX ->
+  match fin_plan m a f with
+  | Val (Some (go, gl, w)) => s_final (erase a) k = Some (go, gl, w) /\ go + gl <= size
+  | Val None => True
+  | Panic _ => s_final (erase a) k = None
+  | OutOfFuel => False
+  end.
+Proof.
+  intros S IB SZ. assert (WB : ISZ_MAX < W64) by (rewrite W64_val; reflexivity).
+  unfold final_of in S. code4 k S; inversion S; subst f; clear S;
+    destruct a as [off len h|off t h|off t n h]; cbn [fin_plan guard_len erase acc_hi] in *; try exact I; unfold s_final; rewrite KC.
+  all: try (rewrite pmul_Val by nia).
+  all: cbn [bind].
+  all: try (split; [reflexivity|lia]).
+  all: destruct (N.ltb_spec (k_a k) n); cbn [passert bind]; [|reflexivity].
+  all: rewrite pmul_Val by nia; cbn [bind]; split; [f_equal; f_equal; f_equal; lia|nia].
+Qed.
+
+Lemma chain_agree c g r l f : root_of (cc_root c) = Some r -> map_opt step_of (cc_steps c) = Some l ->
+  final_of (cc_final c) = Some f -> xr_size g = cc_size c -> cc_size c <= ISZ_MAX ->
+  match chain_op (cc_mode c) g r l f with
+  | Val op => op = err_xop g \/
+              exists go gl w, s_touched c = Some (go, gl, w) /\ go + gl <= cc_size c /\
+                              op = (if on_demand g then XSliceGuard go gl w else XCopyToVS go gl)
+  | Panic _ => s_touched c = None
+  | OutOfFuel => False
+  end.
+Proof.
+  intros R L F SG SZ. unfold chain_op, s_touched.
+  pose proof (handle_propagates_lemma (cc_mode c) g r l) as HP. unfold d_chain in *.
+  pose proof (root_agree (cc_mode c) g (cc_root c) r R ltac:(rewrite SG; exact SZ)) as RA. rewrite SG in RA.
+  destruct (d_root (cc_mode c) g r) as [[a0|]| |]; try (left; reflexivity); try exact RA.
+  2: { rewrite RA. reflexivity. }
+  destruct RA as [RA1 RA2]. rewrite RA1.
+  pose proof (steps_agree (cc_mode c) (cc_size c) (cc_steps c) l a0 L RA2 SZ) as SA.
+  destruct (d_steps (cc_mode c) a0 l) as [[a|]| |]; try (left; reflexivity); try exact SA.
+  2: { rewrite SA. reflexivity. }
+  destruct SA as [SA1 SA2]. rewrite SA1.
+  pose proof (final_agree (cc_mode c) (cc_size c) a (cc_final c) f F SA2 SZ) as FA.
+  destruct (fin_plan (cc_mode c) a f) as [[[[go gl] w]|]| |]; try (left; reflexivity); try exact FA.
+  destruct FA as [FA1 FA2]. right. exists go, gl, w. rewrite (HP a eq_refl). repeat split; assumption.
+Qed.
+
+Lemma op_ok_r0 c c' op op' p : p_r p = 0 -> cx_rkind c = cx_rkind c' -> op_ok c op p = op_ok c' op' p.
+Proof.
+  intros R K. destruct p as [r d lv evs]. cbn [p_r] in R. subst r. unfold op_ok. cbn [p_r p_data p_live p_evs]. rewrite K.
+  change (0 =? 1) with false.
+  destruct (touched (cx_size c) op) as [[? n]|], (touched (cx_size c') op') as [[? n']|]; rewrite ?andb_false_r; reflexivity.
+Qed.
+
+Lemma run_op_err m o g : xr_size g + 1 < W64 -> run_op m o g (err_xop g) = ([], RErr).
+Proof.
+  intros B. unfold run_op, err_xop, op_plan, end_offset, checked_add. rewrite N.add_0_r.
+  destruct (N.ltb_spec (xr_size g + 1) W64); [|lia]. destruct (N.ltb_spec (xr_size g) (xr_size g + 1)); [|lia]. reflexivity.
+Qed.
+
+Lemma run_op_nod m o g go gl w : on_demand g = false -> go + gl <= xr_size g -> xr_size g < W64 ->
+  run_op m o g (XCopyToVS go gl) = run_op m o g (XSliceGuard go gl w).
+Proof.
+  intros D I B. unfold run_op, op_plan, end_offset, checked_add.
+  destruct (N.ltb_spec (go + gl) W64); [|lia]. destruct (N.ltb_spec (xr_size g) (go + gl)); [lia|].
+  rewrite D. unfold guarded. rewrite D. reflexivity.
+Qed.
+
+Lemma ok_panic d c o p x : cx_ops c = [x] -> touched (cx_size c) x = None -> ox_ops o = [p] -> p_evs p = [] ->
+  ok_C17x c o = true -> ok_C17xn c (as_panic (add_refs_obs d o)) = true.
+Proof.
+  intros CO T OO PE H. destruct o as [bu os al me le]. cbn [ox_ops] in OO. subst os.
+  destruct p as [r dd lv evs]. cbn [p_evs] in PE. subst evs.
+  unfold ok_C17xn, strip_obs, as_panic, add_refs_obs, ok_C17x in *.
+  cbn [ox_built ox_ops ox_mapped_alive ox_mapped_end ox_live_end map add_refs_op strip_op p_r p_data p_live p_evs add_refs
+       strip_refs filter forallb maps_named] in *.
+  rewrite CO in *. cbn [ops_ok] in *.
+  destruct (bu =? 1); [|reflexivity].
+  apply andb_true_iff in H. destruct H as [H H5]. apply andb_true_iff in H. destruct H as [H H4].
+  apply andb_true_iff in H. destruct H as [H H3]. rewrite H3, H4, H5.
+  unfold op_ok. cbn [p_r p_data p_live p_evs]. rewrite T. reflexivity.
+Qed.
+
+Lemma C17c_model_ok_lemma : forall c r l f, wf17x (case17x_of c) ->
+  root_of (cc_root c) = Some r -> map_opt step_of (cc_steps c) = Some l -> final_of (cc_final c) = Some f ->
+  ok_C17c c (run_C17c c r l f) = true.
+Proof.
+  intros c r l f W R L F. unfold ok_C17c, run_C17c.
+  pose (xe := {| x_code := 2; x_off := cc_size c + 1; x_a := 0; x_b := 0; x_c := 0 |}).
+  pose (cxE := {| cx_mode := cc_mode c; cx_rkind := cc_rkind c; cx_size := cc_size c; cx_gbase := cc_gbase c;
+                  cx_page := cc_page c; cx_ops := [xe] |}).
+  assert (WE : wf17x cxE) by exact W.
+  pose proof W as [RK [Hps [Hal [H32 H63]]]]. cbn [case17x_of cx_rkind cx_page cx_gbase cx_size] in RK, Hps, Hal, H32, H63.
+  assert (SZ : cc_size c <= ISZ_MAX) by (unfold ISZ_MAX; lia).
+  assert (WB : ISZ_MAX < W64) by (rewrite W64_val; reflexivity).
+  assert (WB2 : 9223372036854775808 < W64) by (rewrite W64_val; reflexivity).
+  destruct (build17 (case17x_of c) W) as [NB | (g & l0 & E & S1 & S2 & OD & D3 & ld & DR & LE)].
+  - (* the region is not built: nothing to judge *)
+    assert (RN : region17 (case17x_of c) = None).
+    { unfold region17. destruct (xen_from_range (cx_mode (case17x_of c)) (os17 (case17x_of c)) (range17 (case17x_of c)))
+        as [[[g|e] l1]| |] eqn:E; try reflexivity. exfalso. exact (NB g l1 eq_refl). }
+    rewrite RN. unfold run_C17xn. apply ok_C17xn_of_x. unfold run_C17x.
+    destruct (xen_from_range (cx_mode (case17x_of c)) (os17 (case17x_of c)) (range17 (case17x_of c)))
+      as [[[g|e] l1]| |] eqn:E; try reflexivity. exfalso. exact (NB g l1 eq_refl).
+  - assert (RS : region17 (case17x_of c) = Some g) by (unfold region17; rewrite E; reflexivity).
+    rewrite RS. cbn [case17x_of cx_size] in S1.
+    (* the refused chain, as a history of the case whose one operation touches nothing *)
+    assert (XOE : xops_of (cx_ops cxE) = Some [err_xop g]).
+    { cbn. unfold err_xop. rewrite S1. reflexivity. }
+    assert (NUE : no_unguarded cxE).
+    { intros K x [<-|[]]. cbn. split; discriminate. }
+    pose proof (C17x_model_ok_lemma cxE [err_xop g] WE XOE NUE) as HE.
+    change (run_C17x cxE [err_xop g]) with (run_C17x (case17x_of c) [err_xop g]) in HE.
+    assert (HEO : exists o p, run_C17x (case17x_of c) [err_xop g] = o /\ ox_ops o = [p] /\ p_r p = 0 /\ p_evs p = []).
+    { unfold run_C17x. rewrite E. cbn [model_ops]. rewrite run_op_err by (rewrite S1; lia).
+      cbv beta iota zeta. eexists. eexists. split; [reflexivity|]. cbn [ox_ops p_r p_evs opres_code dev_evs flat_map].
+      repeat split; reflexivity. }
+    destruct HEO as (oE & pE & EO & EO1 & EO2 & EO3). rewrite EO in HE.
+    assert (HERR : ok_C17x (case17x_of c) oE = true).
+    { revert HE. unfold ok_C17x. rewrite EO1. cbn [case17x_of cx_ops cx_rkind cxE ops_ok].
+      rewrite (op_ok_r0 (case17x_of c) cxE (chain_xopc c) xe pE EO2 eq_refl). auto. }
+    pose proof (chain_agree c g r l f R L F S1 SZ) as CA.
+    destruct (chain_op (cc_mode c) g r l f) as [op| |].
+    + unfold run_C17xn. apply ok_C17xn_of_x.
+      destruct CA as [-> | (go & gl & w & ST & IN & ->)].
+      * rewrite EO. exact HERR.
+      * assert (HG : ok_C17x (case17x_of c) (run_C17x (case17x_of c) [XSliceGuard go gl w]) = true).
+        { apply C17x_model_ok_lemma; [exact W| |].
+          - cbn [case17x_of cx_ops]. unfold chain_xopc. rewrite ST. cbn. destruct w; reflexivity.
+          - intros K x [<-|[]]. unfold chain_xopc. rewrite ST. cbn. split; discriminate. }
+        destruct (on_demand g) eqn:D; [exact HG|].
+        unfold run_C17x in *. rewrite E in *. cbn [model_ops] in *.
+        rewrite (run_op_nod _ _ g go gl w D ltac:(lia) ltac:(lia)). exact HG.
+    + (* a derivation that panics designates nothing *)
+      unfold run_C17xn. rewrite EO.
+      apply (ok_panic _ (case17x_of c) oE pE (chain_xopc c)); try assumption; try reflexivity.
+      unfold chain_xopc. rewrite CA. cbn [case17x_of cx_size]. unfold touched. cbn [x_code x_off x_a].
+      destruct (N.leb_spec (cc_size c + 1 + 0) (cc_size c)); [lia|reflexivity].
+    + destruct CA.
+Qed.
